@@ -80,6 +80,8 @@ inductive Tag where
   | normal | jumpiInvalidSym
   | memLimit     -- OutOfGasError raised by a `MAX_MEMORY_SIZE` check: the limit is a modelling parameter, not EVM behaviour
   | stackLimit   -- the model's own: more than 1024 stack items (the code has no stack limit and would go on)
+  | errKind      -- an exceptional halt whose *kind* is not the EVM's: LOG in a static frame with too few operands
+                 -- (the code checks `is_static` before it pops; the EVM validates the stack first)
   deriving DecidableEq, Repr
 
 structure EndState where
@@ -314,6 +316,7 @@ def step (s : Simp) (o : Oracle) (cfg : Cfg) (env : Env) (code : List Nat) (st :
     else if op = 0x32 then contOut (pushTerm s st env.origin)
     else if op = 0x30 then contOut (pushTerm s st env.address)
     else if op = 0x36 then contOut { st with pc := st.pc + 1, stack := .bv 256 (.con (env.cdSize % 2 ^ 256)) :: st.stack }
+    else if op = 0x38 then contOut { st with pc := st.pc + 1, stack := .bv 256 (.con (code.length % 2 ^ 256)) :: st.stack }
     else if op = 0x35 then
       match st.stack with
       | v :: rest =>
